@@ -53,11 +53,33 @@ func jStr(v any) string {
 
 // MatchCtx carries what time-dependent comparisons need.
 type MatchCtx struct {
-	T0        int64 // unix seconds that model time 1000 maps to
+	T0        int64 // unix seconds; model time 1000000 (ms) maps to T0*1000 ms
 	ElapsedMs int64 // real milliseconds since T0 when the reply was read
 }
 
-func (m *MatchCtx) absMs(model int64) int64 { return (m.T0 + model - 1000) * 1000 }
+func (m *MatchCtx) absMs(model int64) int64 { return m.T0*1000 + model - 1000000 }
+
+// substTime replaces the symbolic absolute-time arguments "@T:<model ms>" / "@M:<model ms>"
+// by real epoch seconds / milliseconds.
+func (m *MatchCtx) substTime(cmd [][]byte) [][]byte {
+	out := make([][]byte, len(cmd))
+	for i, a := range cmd {
+		out[i] = a
+		if len(a) >= 4 && a[0] == '@' && (a[1] == 'T' || a[1] == 'M') && a[2] == ':' {
+			n, err := strconv.ParseInt(string(a[3:]), 10, 64)
+			if err != nil {
+				continue
+			}
+			ms := m.absMs(n)
+			if a[1] == 'T' {
+				out[i] = []byte(strconv.FormatInt(ms/1000, 10))
+			} else {
+				out[i] = []byte(strconv.FormatInt(ms, 10))
+			}
+		}
+	}
+	return out
+}
 
 func bulkLike(r *Reply) bool {
 	return r != nil && !r.Null && (r.Kind == '$' || r.Kind == '+' || r.Kind == '=')
@@ -91,7 +113,15 @@ func matchReply(exp J, obs *Reply, ctx *MatchCtx) bool {
 		}
 		code := strings.SplitN(string(obs.Str), " ", 2)[0]
 		want := jStr(exp["code"])
-		return want == "*" || code == want
+		if want == "*" {
+			return true
+		}
+		for _, w := range strings.Split(want, "|") { // several error conditions apply at once: any of their codes
+			if code == w {
+				return true
+			}
+		}
+		return false
 	case "arr":
 		a := jList(exp["a"])
 		if !isArrayLike(obs) || len(a) != len(obs.Elems) {
@@ -127,6 +157,37 @@ func matchReply(exp J, obs *Reply, ctx *MatchCtx) bool {
 			}
 		}
 		return true
+	case "ubag":
+		want := jList(exp["a"])
+		if !isArrayLike(obs) || len(want) != len(obs.Elems) {
+			return false
+		}
+		ws := make([]string, len(want))
+		for i, w := range want {
+			ws[i] = string(jBytes(w))
+		}
+		os := make([]string, len(obs.Elems))
+		for i, e := range obs.Elems {
+			if e.Null || e.Kind != '$' {
+				return false
+			}
+			os[i] = string(e.Str)
+		}
+		sort.Strings(ws)
+		sort.Strings(os)
+		for i := range ws {
+			if ws[i] != os[i] {
+				return false
+			}
+		}
+		return true
+	case "lcs":
+		if obs.Null || obs.Kind != '$' || int64(len(obs.Str)) != jInt(exp["n"]) {
+			return false
+		}
+		return isSubseq(obs.Str, jBytes(exp["a"])) && isSubseq(obs.Str, jBytes(exp["b"]))
+	case "dead":
+		return false // only ever matched through the "no reply" path
 	case "umap":
 		want := jList(exp["p"])
 		pairs, ok := obsPairs(obs)
@@ -237,11 +298,11 @@ func matchReply(exp J, obs *Reply, ctx *MatchCtx) bool {
 		if obs.Null || obs.Kind != ':' {
 			return false
 		}
-		v := jInt(exp["v"])
+		v := jInt(exp["v"]) // remaining model milliseconds
 		if jStr(exp["unit"]) == "ms" {
-			return obs.Int <= v*1000+5 && obs.Int >= v*1000-ctx.ElapsedMs-1500
+			return obs.Int <= v+5 && obs.Int >= v-ctx.ElapsedMs-1500
 		}
-		return obs.Int <= v+1 && obs.Int >= v-(ctx.ElapsedMs+999)/1000-2
+		return obs.Int <= v/1000+1 && obs.Int >= (v-ctx.ElapsedMs)/1000-2
 	case "time":
 		if obs.Null || obs.Kind != ':' {
 			return false
@@ -273,6 +334,16 @@ func deadlineOk(mode string, wantMs, gotMs int64, ctx *MatchCtx, secondsUnit boo
 		}
 		return d == 0
 	}
+}
+
+func isSubseq(x, of []byte) bool {
+	j := 0
+	for i := 0; i < len(of) && j < len(x); i++ {
+		if of[i] == x[j] {
+			j++
+		}
+	}
+	return j == len(x)
 }
 
 func obsPairs(obs *Reply) ([]string, bool) {
